@@ -251,6 +251,12 @@ def text_columns(repo, res):
             res.check(v_ is not None and norm(v_) == prm, f"loadtxt:{prm}-forwarded", fn.where(npcall[0]), f"loadtxt does not hand its `{prm}` argument to np.loadtxt: the header is scanned with the caller's value while NumPy reads the numbers with its own default (a file written with comments='%' cannot be read back)", f"{prm}={prm}", norm(v_) if v_ is not None else None, rid=r5)
     up_ = kwarg_of(npcall[0], "unpack") if len(npcall) == 1 else None
     res.check(isinstance(up_, ast.Constant) and up_.value is True, "loadtxt:unpack", fn.where(), "np.loadtxt is asked for one array per column (unpack=True): the columns are paired with the header units", rid=r5)
+    # ... and for a two-dimensional result whatever the file's shape: with ndmin < 2 a file of ONE ROW and several columns
+    # comes back as one 1-d array (one entry per column), indistinguishable from a one-column file - the columns would be
+    # returned as a single array carrying the first column's unit
+    nd_ = kwarg_of(npcall[0], "ndmin") if npcall else None
+    rewrap = [n for n in walk_no_nested(fn.node) if isinstance(n, ast.If) and "shape" in norm(n.test) and any(isinstance(x, ast.Assign) and isinstance(x.value, ast.List) for x in n.body)]
+    res.check(isinstance(nd_, ast.Constant) and nd_.value == 2 and not rewrap, "loadtxt:one-array-per-column", fn.where(npcall[0]) if npcall else fn.where(), "loadtxt cannot tell a one-row file with several columns from a one-column file (np.loadtxt returns a 1-d array for both unless ndmin=2): savetxt of three one-element arrays in m, s, kg is read back as one array [1, 2, 3] m", "np.loadtxt(..., unpack=True, ndmin=2)", f"ndmin={norm(nd_) if nd_ is not None else None}, re-wrapping test: {[norm(n.test) for n in rewrap]}", rid=r5)
     # re-bindings of the unit list that depend on usecols
     from engine.sem import canon_node
 
@@ -431,6 +437,7 @@ def rebuilt_from_table(repo, res):
 
 
 MUTANTS = [
+    Mutant("loadtxt-one-row-file", ARR, "loadtxt", "        ndmin=2,\n    )\n", "        ndmin=0,\n    )\n    if len(arrays.shape) < 2:\n        arrays = [arrays]\n", ("C11-R5",)),
     Mutant("class-level-unit-cache", REG, None, "    _unit_system_id = None\n", "    _unit_system_id = None\n    _unit_object_cache = {}\n", ("C11-R6",)),
     Mutant("array-deepcopy-shares-registry", ARR, "unyt_array.__deepcopy__", "copy.deepcopy(self.units)", "self.units.copy()", ("C11-R6",), count=2),
     Mutant("fixer-skips-current-format", REG, "_correct_old_unit_registry", "            unsan_v[1] = _base_dimension_singletons.get(unsan_v[1].name, unsan_v[1])", "            pass", ("C11-R1a", "C11-R1b")),
